@@ -10,6 +10,7 @@ import (
 	"fmt"
 	"net/netip"
 	"os"
+	"runtime"
 	"strings"
 	"sync"
 	"syscall"
@@ -233,7 +234,11 @@ func (c *Conn) Writes() int {
 
 // ReadFrom implements system.Conn.
 func (c *Conn) ReadFrom() (ndp.Message, *ipv6.ControlMessage, netip.Addr, error) {
-	c.Tr.Add(Event{Kind: "read_wait", Gen: c.Gen, If: c.If})
+	// Val: how deep the reader's call stack is when it comes back for the next
+	// message (a reader whose stack grows with every message it drops will die
+	// of it under a flood).
+	var pcs [4096]uintptr
+	c.Tr.Add(Event{Kind: "read_wait", Gen: c.Gen, If: c.If, Val: int64(runtime.Callers(0, pcs[:]))})
 	for {
 		c.mu.Lock()
 		if c.expired {
